@@ -303,7 +303,18 @@ def resolve_table(prog):
             table[chr(v)] = ("push", what)
     reg = _region(f, t["otherwise"], list(arms.values()), back)
     other = []
-    for bb, tt, n in _pushes(f, o, reg, kinds=("Vec::push",)):
+    for bb, tt, n in _pushes(f, o, reg, kinds=("Vec::push", "Extend::extend", "Vec::extend", "Vec::extend_from_slice")):
+        if method_name(callee_name(tt, resolved=False) or "") != "Vec::push":
+            # `bytes.extend(ch2.encode_utf8(&mut buf).as_bytes())`: the whole character, not its low byte
+            enc = [x for x in n.walk() if x.kind == "call" and method_name(x.a) == "char::encode_utf8"]
+            src = peel(enc[0].kids[0]) if enc else None
+            which = None
+            if src is not None:
+                for nm, lc in (("ch", ch_local), ("ch2", ch2_local)):
+                    if any(x.kind == "local" and x.a == f.lname(lc) for x in src.walk()) or src.show() == Origins(f).local(lc).show():
+                        which = nm
+            other.append((which or "?") + ":utf8")
+            continue
         pl = tt["args"][1].get("copy") or tt["args"][1].get("move")
         d = f.single_def(pl["l"]) if pl and not pl["p"] else None
         base = None
@@ -360,7 +371,10 @@ def decode(unesc, unesc_other, res, res_other, text):
                 continue
             seq = e[1] if e else res_other
             for x in seq:
-                res_bytes.append(ord(c) if x == "ch" else ord(c2))
+                if x.endswith(":utf8"):
+                    res_bytes += list((c if x.startswith("ch:") else c2).encode("utf-8"))
+                else:
+                    res_bytes.append((ord(c) if x == "ch" else ord(c2)) & 0xff)
             i += 2
             continue
         res_bytes += list(c.encode("utf-8"))
@@ -380,8 +394,10 @@ def check_decoder_tables(ctx):
               "`\\x` arm is %s" % (res.get("x"),))
     ctx.check(res.get("0") == ("radix", 8, 2), "octal", rf.where(), "`\\0OO` reads exactly two digits in radix 8", "`\\0` arm is %s" % (res.get("0"),))
     ctx.check(res.get("\\") == ("push", ["ch"]), "backslash", rf.where(), "`\\\\` decodes to one backslash", "`\\\\` arm is %s" % (res.get("\\"),))
-    ctx.check(unesc_other == ["\\", "<letter>"] and res_other == ["ch", "ch2"], "unknown-escape-kept", uf.where(),
-              "an unknown escape `\\X` is kept as the two characters", "unknown escapes decode to %s / %s" % (unesc_other, res_other))
+    ctx.check(unesc_other == ["\\", "<letter>"] and res_other == ["ch", "ch2:utf8"], "unknown-escape-kept", uf.where(),
+              "an unknown escape `\\X` is kept as the two characters (X with all its bytes)",
+              "unknown escapes decode to %s / %s%s" % (unesc_other, res_other, ": the character behind the backslash is cut down to one byte (`ch2 as u8`), `a\\éb (escaped)` "
+                                                        "does not match the line `a\\éb`" if res_other == ["ch", "ch2"] else ""))
     ef, enc = encoder_table(prog)
     for b in range(256):
         e = enc[b]
